@@ -2,7 +2,7 @@
    to the hand-written model that the c08_* theorems are about.  An edit to a guard, operand, constant or operator of
    the source changes the generated definition and breaks one of these equalities. *)
 From Coq Require Import Lia.
-From RM Require Import C08.Model C08.Proofs C08.WinModel C08.WinProofs C08.Driver Gen.C08Tables.
+From RM Require Import C08.Model C08.Proofs C08.IndexProofs C08.WinModel C08.WinProofs C08.Driver Gen.C08Tables.
 Open Scope Z_scope.
 
 Definition u64 (x : Z) : Prop := 0 <= x < two64.
@@ -147,3 +147,8 @@ Proof. split; [exact g_build_indexed_eq|]. split; [exact g_insert_win_eq|exact g
 
 Lemma g_win_table_total p (l : list winrec) : wf_recs l -> exists t, g_win_table p l = Ret t.
 Proof. intros H. rewrite g_win_table_eq. apply win_table_total. exact H. Qed.
+
+(* the generated index-valued builder never fails and its table is the one the indexed_* lemmas are about *)
+Lemma g_build_indexed_total ranges : wf_opt_ranges ranges ->
+  g_build_indexed ranges = Ret (into_rangemap_safe Z.eqb (enumerate_from 0 ranges)).
+Proof. intros H. unfold g_build_indexed. apply g_build_traits_total. apply wf_enumerate. exact H. Qed.
